@@ -120,6 +120,10 @@ def module_edits(ms, loc, g, ctx, out):
 
     if ms["type"] != "Output":
         attr_edit("name", "name", lambda: build.utf8_prefix(g.module_name()) or "n")
+        # a module renamed to a word the format itself uses (the output module's name, a type name, a chunk id)
+        word = ("Output", "Output", "MetaModule", "SEND", ms["type"])[len(base) % 5]
+        if ms["name"] != word:
+            out.append(Edit(f"{base}/name", (lambda root, v=word: setattr(nav(root, loc), "name", v)), word, cls="name-format-word"))
     attr_edit("flags", "flags", lambda: g.flags(t))
     attr_edit("color", "color", lambda: tuple(rng.randrange(256) for _ in range(3)))
     attr_edit("midi_in_always", "midi_in_always", lambda: not ms["midi_in_always"])
@@ -318,6 +322,9 @@ def sampler_edits(ms, loc, g, out):
             if v is None:
                 continue
             out.append(Edit(f"{base}/payload/samples/{idx}/{f}", (lambda root, idx=idx, f=f, v=v: setattr(nav(root, loc).samples[idx], f, v)), v, cls="sampler-sample"))
+        padded = (bytes(sd["name"]).rstrip(b" \0")[:12] or b"Bass Drum").ljust(22)          # a name padded with BLANKS to the field's width
+        if padded != sd["name"]:
+            out.append(Edit(f"{base}/payload/samples/{idx}/name", (lambda root, idx=idx, v=padded: setattr(nav(root, loc).samples[idx], "name", v)), padded, cls="sampler-text-blank-padded"))
         out.append(Edit(f"{base}/payload/samples/{idx}/loop_sustain", (lambda root, idx=idx, v=not sd["loop_sustain"]: setattr(nav(root, loc).samples[idx], "loop_sustain", v)), not sd["loop_sustain"], cls="sampler-sample"))
         v = differ(g, sd["loop_type"], lambda: rng.choice([0, 1, 2]))
         out.append(Edit(f"{base}/payload/samples/{idx}/loop_type", (lambda root, idx=idx, v=v: setattr(nav(root, loc).samples[idx], "loop_type", nav(root, loc).LoopType(v))), v, cls="sampler-sample"))
@@ -382,6 +389,9 @@ def sampler_edits(ms, loc, g, out):
     if j != i:
         v2 = differ(g, pl["note_samples"][j], lambda: g.pick(0, 255))
         out.append(Edit(f"{base}/payload/note_samples[{j}]", (lambda root, j=j, v2=v2: nav(root, loc).note_samples.update({list(nav(root, loc).note_samples)[j]: v2})), v2, cls="sampler-map-update"))
+    ipad = (bytes(pl["instrument_name"]).rstrip(b" \0")[:10] or b"Kit").ljust(22) if rng.random() < 0.5 else (bytes(pl["instrument_name"]).rstrip(b" \0")[:10] or b"Kit") + b"  "
+    if ipad != pl["instrument_name"]:
+        out.append(Edit(f"{base}/payload/instrument_name", (lambda root, v=ipad: setattr(nav(root, loc), "instrument_name", v)), ipad, cls="sampler-text-blank-padded"))
     # notes are UN-mapped from the top of the map downwards (the tail of the map becomes zeros)
     nz = [k for k, x in enumerate(pl["note_samples"]) if x]
     if nz:
